@@ -57,3 +57,13 @@ package ext
 
 //@ func (*Bool).CompareAndSwap
 //@   trusted
+
+// atomic.Pointer: Load returns whatever was stored last by anyone: arbitrary, non-nil where the
+// owner stores a non-nil value at construction and ever after (stated by the callers' contracts)
+//@ func (*Pointer).Load
+//@   trusted
+//@   ensures obj(result) == ghost(ptrObj, x) && off(result) == 0
+//@ func (*Pointer).Store
+//@   trusted
+//@ func (*Pointer).Swap
+//@   trusted
